@@ -111,6 +111,8 @@ def enc_value(x, hint=None):
     hint selects the reading of str values ('hex' / 'oct' / 'bin' / 'text') and
     of ints ('small' for positions and counts)."""
     import bitstring
+    if hint == 'raw':
+        return list(x)          # already encoded by the harness
     if x is None:
         return [0]
     if x is OPAQUE:
